@@ -307,6 +307,7 @@ func (r *runner) checkDisk(i int, when string) error {
 }
 
 func (r *runner) classify(kind string, off, n uint64, l uint64) {
+	hx.Eval() // one evaluation per checked operation
 	hx.Label(fmt.Sprintf("op=%s msize=%d", kind, r.nm))
 	if nonTrivial(off, n, l, r.u) {
 		hx.NonTrivial(r.nm, r.c.Dotu, lenClass(l, r.u), kind, offClass(off, l, r.u), cntClass(n, r.u), endClass(off, n, l))
